@@ -772,7 +772,11 @@ def _batch_loose_aligned(L: Layout, N: Layout, insertions: Sequence[Tuple[int, S
         flat = flatten_items(items)
         # one operation, alone at its index: a single EARLIEST insert at that boundary, so the
         # "before everything after the insertion point" clause applies to it without exemption
-        alone = len(items) == 1 and len(flat) == 1 and n_at[k] == 1
+        # (only if no entry of the call inserts several operations: those fall under the
+        # statement's exemption and may create moments beyond their own insertion point, which
+        # the documented shift then adds to every later index)
+        alone = len(items) == 1 and len(flat) == 1 and n_at[k] == 1 and \
+            all(len(its) == 1 and len(flatten_items(its)) <= 1 for _, its in insertions)
         for x in flat:
             jx = pos[x.uid][0]
             for i, m in enumerate(L):
